@@ -2745,6 +2745,11 @@ def _efc_contact_init(cone_type: types.ConeType, is_sparse: bool, newton: bool, 
 
       rowadr = wp.atomic_add(efc_nnz_out, worldid, rownnz * ndim)
       if rowadr + rownnz * ndim > njmax_nnz_in:
+        # no room for this contact's Jacobian non-zeros: its rows keep stale J_rowadr / J_rownnz, so
+        # the Jacobian kernel must not touch them (the overflow is reported and the world's rows
+        # are dropped at the end of make_constraint)
+        for dim in range(ndim):
+          contact_efc_address_out[conid, dim] = -1
         return
       for dim in range(ndim):
         efcid = base_efcid + dim
@@ -3087,6 +3092,11 @@ def _efc_contact_init_flex(cone_type: types.ConeType, is_sparse: bool, newton: b
 
       rowadr = wp.atomic_add(efc_nnz_out, worldid, rownnz * ndim)
       if rowadr + rownnz * ndim > njmax_nnz_in:
+        # no room for this contact's Jacobian non-zeros: its rows keep stale J_rowadr / J_rownnz, so
+        # the Jacobian kernel must not touch them (the overflow is reported and the world's rows
+        # are dropped at the end of make_constraint)
+        for dim in range(ndim):
+          contact_efc_address_out[conid, dim] = -1
         return
       for dim in range(ndim):
         efcid = base_efcid + dim
